@@ -756,7 +756,7 @@ def main(argv: List[str]) -> int:
         "skipped_reference_failed": skipped,
         "determinism": {"rerun_other_worker_count": det_checked, "mismatches": det_mismatch},
         "real_vs_stub": {"real": ["generator CLI, model loader, all four plugins (current working tree)", "CPython, pathlib, json, file system (tmpfs)"],
-                         "simulated": ["PYTHONHASHSEED", "uuid.uuid4 stream", "default text encoding (ASCII C locale vs UTF-8)", "wall clock (time.time/localtime/strftime, datetime.now/today shifted by days or years between runs)", "location and spelling (relative, trailing slash, ..) of the output directory, symlinked output directory, location of the model files", "python -O / -OO", "machine identity: cpu count, host name, terminal size, USER/HOME/COLUMNS/TMPDIR/CI environment variables", "os.scandir/os.listdir order", "process kill / ENOSPC / EIO at write-open, during write (torn), at unlink, at mkdir",
+                         "simulated": ["PYTHONHASHSEED", "uuid.uuid4 stream", "flow of time: discrete-event clock (every reading of time.time/monotonic/perf_counter/process_time advances simulated time by the machine's step, 1 us - 0.7 s; sleep costs simulated time)", "developer tools on PATH (stand-ins for ruff/black/rustfmt/cargo/dotnet/git/... that mark every file they are given)", "an earlier generation of another model in the same interpreter", "model lists with repeated paths, overlapping declarations, differing metaData", "default text encoding (ASCII C locale vs UTF-8)", "wall clock (time.time/localtime/strftime, datetime.now/today shifted by days or years between runs)", "location and spelling (relative, trailing slash, ..) of the output directory, symlinked output directory, location of the model files", "python -O / -OO", "machine identity: cpu count, host name, terminal size, USER/HOME/COLUMNS/TMPDIR/CI environment variables", "os.scandir/os.listdir order", "process kill / ENOSPC / EIO at write-open, during write (torn), at unlink, at mkdir",
                                        "initial directory contents"], "stub": []},
         "violation_signatures": sorted(first_fail),
     }
